@@ -880,6 +880,7 @@ package profile
 //@     invariant pending: forall j int :: 0 <= j && j < len(p.Location) ==> p.Location[j].mappingIDX == old(p.Location[j].mappingIDX)
 //@     invariant samesamples: len(p.Sample) == old(len(p.Sample)) && forall j int :: 0 <= j && j < len(p.Sample) ==> p.Sample[j] == old(p.Sample[j])
 //@     invariant spending: forall j int :: 0 <= j && j < len(p.Sample) ==> p.Sample[j].locationIDX == old(p.Sample[j].locationIDX)
+//@     step file_from_table: iter(err) == nil && 0 <= atiter(1, m.fileX) && int(atiter(1, m.fileX)) < len(p.stringTable) ==> m.File == p.stringTable[int(atiter(1, m.fileX))]
 //@   loop 2
 //@     invariant mcomp: forall k int :: 0 <= k && k < len(p.Mapping) ==> ite(p.Mapping[k].ID < uint64(len(mappingIds)), mappingIds[int(p.Mapping[k].ID)] != nil, has(mappings, p.Mapping[k].ID))
 //@     invariant decodedok(p) && mappings != nil && len(mappingIds) == len(p.Mapping) + 1
@@ -890,6 +891,7 @@ package profile
 //@     invariant fmap: forall id uint64 :: has(functions, id) ==> functions[id] != nil && functions[id].ID == id
 //@     invariant samesamples: len(p.Sample) == old(len(p.Sample)) && forall j int :: 0 <= j && j < len(p.Sample) ==> p.Sample[j] == old(p.Sample[j])
 //@     invariant spending: forall j int :: 0 <= j && j < len(p.Sample) ==> p.Sample[j].locationIDX == old(p.Sample[j].locationIDX)
+//@     step name_from_table: iter(err) == nil && 0 <= atiter(2, f.nameX) && int(atiter(2, f.nameX)) < len(p.stringTable) ==> f.Name == p.stringTable[int(atiter(2, f.nameX))]
 //@   loop 3
 //@     invariant mcomp: forall k int :: 0 <= k && k < len(p.Mapping) ==> ite(p.Mapping[k].ID < uint64(len(mappingIds)), mappingIds[int(p.Mapping[k].ID)] != nil, has(mappings, p.Mapping[k].ID))
 //@     invariant mres2: forall j int :: 0 <= j && j < $i ==> p.Location[j].Mapping == ite(old(p.Location[j].mappingIDX) < uint64(len(mappingIds)), mappingIds[int(old(p.Location[j].mappingIDX))], mappings[old(p.Location[j].mappingIDX)])
@@ -1093,3 +1095,13 @@ package profile
 //@   uses profile.errs
 //@ func javaCPUProfile funcvalues=pure
 //@   uses profile.errs
+
+// ---- C03: Merge — the per-input id translation tables are fresh for every input profile (ids of one input never
+// resolve through another input's table), and only non-zero samples are handed to mapSample ----
+//@ func Merge nosafety
+//@   callsite profileMerger.mapSample tables: newer(pm.functionsByID, 1) && newer(pm.mappingsByID, 1) && newer(pm.locationsByID.sparse, 1) && newer(pm.locationsByID.dense, 1)
+//@   callsite profileMerger.mapMapping tables: newer(pm.mappingsByID, 1)
+//@   loop 1
+//@     invariant pm != nil
+//@   loop 2
+//@     mustcall profileMerger.mapSample mapped: $arg1 == s when exists i int :: 0 <= i && i < len(s.Value) && s.Value[i] != 0
